@@ -6,6 +6,7 @@ import (
 	"io"
 	"math/rand"
 	"os"
+	"regexp"
 	"strings"
 	"sync"
 	"time"
@@ -45,6 +46,8 @@ import (
 // map concurrently, each on an engine of its own configured alike, leave it alone and render what they render
 // alone.  The product mode × globals × entry point × context runs on every seed (the remaining settings rotate
 // through it and are crossed in full with the engine-level entry points), random combinations on top.
+
+var c18HexNoise = regexp.MustCompile(`(?i)[0-9a-f]{4,}`)
 
 func init() {
 	c18Extra = append(c18Extra, c18Routes)
@@ -379,6 +382,13 @@ func c18RouteCase(e *Env, s c18Setup, p c18Prog) RenderResult {
 	y.addGlobals(1)
 	want := y.render(c18RouteContext(s.Ctx))
 	if strings.Contains(p.Tpls["main"], "random(") {
+		return first
+	}
+	if second.Class == want.Class && c18MaskAddr(second.Out) != c18MaskAddr(want.Out) && c18HexNoise.ReplaceAllString(second.Out, "H") == c18HexNoise.ReplaceAllString(want.Out, "H") {
+		// the two outputs differ only inside runs of hexadecimal digits: a printed address (C03's recorded finding) that
+		// a filter of the template cut, reversed or re-cased beyond what c18MaskAddr recognises — two data instances
+		// have two addresses; not a C18 matter
+		r.Hit("routes-second-render-differs-in-printed-address-only")
 		return first
 	}
 	if c18MaskAddr(second.Out) != c18MaskAddr(want.Out) || second.Class != want.Class {
